@@ -11,6 +11,9 @@ CONSTANTS
  CRM = 99999
  STAM = 99999
  CTAM = 99999
+ SMPS = 99999
+ CMPS = 99999
+ AutoMap = FALSE
  MaxOps = 2
  MaxLoss = 1
  MaxFire = 0
